@@ -115,7 +115,10 @@ func solveOne(o *Obligation, dir string, timeout int) {
 	}
 	total := 0.0
 	var last string
-	for _, s := range solvers {
+	for si, s := range solvers {
+		if o.fewSolvers && si >= 2 {
+			break // an obligation already known to be slow: the third solver has never decided one of these
+		}
 		st, out, secs := runSolver(s, file, timeout)
 		total += secs
 		if st == "unsat" || st == "sat" {
